@@ -51,6 +51,13 @@ def make_function(kind, D):
     raise ValueError(kind)
 
 
+def reference(kind, f, a, b):
+    """analytic integral of make_function(kind, .) over [a, b] as a 1-d array (the concatenated function offers none itself)"""
+    if kind == 'vector':
+        return np.concatenate([np.atleast_1d(np.asarray(g.getAnalyticSolutionIntegral(a, b), dtype=float)) for g in f.funcs])
+    return np.atleast_1d(np.asarray(f.getAnalyticSolutionIntegral(a, b), dtype=float))
+
+
 class Counting:
     """independent count of the distinct points at which the integrand is evaluated (wraps eval / eval_vectorized)"""
 
@@ -99,10 +106,7 @@ def build(c):
     a = np.array(c.get('a', [0.0] * D), dtype=float)
     b = np.array(c.get('b', [1.0] * D), dtype=float)
     f = make_function(c['func'], D)
-    if c['func'] == 'vector':
-        ref = np.concatenate([np.atleast_1d(np.asarray(g.getAnalyticSolutionIntegral(a, b), dtype=float)) for g in f.funcs])
-    else:
-        ref = np.atleast_1d(np.asarray(f.getAnalyticSolutionIntegral(a, b), dtype=float))
+    ref = reference(c['func'], f, a, b)
     if c.get('zero_ref'):
         ref = np.zeros_like(ref)
     st = c['strategy']
